@@ -67,6 +67,41 @@ def correspondence(rep, work, cases, select=None, project=None, flavor='plain', 
     return (c, cown), (m, mown), nd
 
 
+def theorem_applicability(work, cases, shared=None, tag='mdlx'):
+    """Evaluate the decision predicates of coq/Proofs_Decide.v (extracted through ExtractX.v) on every snapshot the model takes
+    while it runs `cases`: returns {case id: [(ls_ok, ls4_ok) per `snap` line that produced a dump]}.  ls_ok = the hypotheses of
+    the round-trip theorem hold of that object (C01_decided), ls4_ok = those of the second-generation theorem (C04_decided)."""
+    from lib import build
+    exe = build.build_modelx()
+    env = dict(os.environ); env['EZ_LS'] = '1'
+    res, _, _ = harness.run_side(exe, cases, work, tag, shared or work.sub('shared'), (), env, 16)
+    out = {}
+    for cid, lines in cases:
+        ml, ms = res.get(cid, ([], 'missing'))
+        flags = []
+        for ln, o in harness.split_ops(lines, ml):
+            if ln.startswith('snap') and o and o[0].startswith('H '):
+                l = [x for x in o if x.startswith('L ')]
+                t = l[0].split(' ') if l else None
+                flags.append((int(t[1]), int(t[2]), t[3] if len(t) > 3 else '') if t else None)
+        out[cid] = flags
+    return out
+
+LS_HYPOTHESES = ['header within the format', 'every group and parameter well formed (capacity limits)', 'at most one DATA_START', 'no repeated name, no untyped parameter',
+                 'last group not a placeholder', 'parameter section below 256 blocks', 'section starts at byte 1 of its block', 'group ids 1..127 and records below 65536 bytes',
+                 'header agrees with the parameters', 'header frame count = stored frames', 'frame count below the vector limit', 'declared data size within the loop bound of the model',
+                 'data present => float format', 'every frame of the announced shape']
+def failing_hypotheses(appl, pick=0):
+    """{hypothesis: number of objects it excludes} over the snapshot number `pick` of every case"""
+    out = {}
+    for cid, fl in appl.items():
+        if len(fl) > pick and fl[pick] is not None and not fl[pick][0]:
+            bits = fl[pick][2]
+            if not bits: out['save refused or names not readable'] = out.get('save refused or names not readable', 0) + 1
+            for k, b in enumerate(bits):
+                if b == '0': out[LS_HYPOTHESES[k]] = out.get(LS_HYPOTHESES[k], 0) + 1
+    return out
+
 def corpus_part(rep, work, prop):
     """Replay the minimal scripts of the repaired defects that concern this property (model of the repaired code
     against the implementation): a defect that returns is reported again."""
